@@ -117,11 +117,13 @@ Qed.
 Theorem coalesce_minint_refuted :
   coalesce_intervals_prefix [(Ts minInt64, Ts 5); (Ts minInt64, Ts 9)] = [(Ts minInt64, Ts 5); (Ts minInt64, Ts 9)].
 Proof. exact coalesce_minint_refuted_lemma. Qed.
+Print Assumptions coalesce_minint_refuted.
 
 (* the repaired test merges them *)
 Theorem coalesce_minint_merged :
   coalesce_intervals [(Ts minInt64, Ts 5); (Ts minInt64, Ts 9)] = [(Ts minInt64, Ts 9)].
 Proof. exact coalesce_minint_merged_lemma. Qed.
+Print Assumptions coalesce_minint_merged.
 
 (* the two tests differ only at MinInt64: for a valid `cur` starting within int64
    and an `x` starting after MinInt64 they agree *)
